@@ -185,6 +185,52 @@ def rule_b(ctx, out):
                     hi = "inf" if iv[1] == wordint.INF else "2^" + str(int(iv[1]).bit_length())
                     out.bad(f"fold:{sel}:out-of-domain", f"constant folding of `{sel}` can produce a value outside [0, 2^256): interval [{lo}, {hi}] "
                             f"for `{short(st.value, 50)}` (not reduced modulo 2^256)", where(f, st))
+    # shift folds: the guard / clamp must let every shift amount 0..255 through (a smaller threshold folds a valid shift to 0 / to the
+    # wrong fill); amounts >= 256 are what the else-value stands for
+    def shift_amounts(e, env):
+        if isinstance(e, ast.IfExp):
+            yield from shift_amounts(e.body, wordint.refine(env, e.test, True, consts))
+            yield from shift_amounts(e.orelse, wordint.refine(env, e.test, False, consts))
+            return
+        if isinstance(e, ast.BinOp) and isinstance(e.op, (ast.LShift, ast.RShift)):
+            yield e, wordint.interval(e.right, env, consts, [])
+        for c in ast.iter_child_nodes(e):
+            if isinstance(c, ast.expr):
+                yield from shift_amounts(c, env)
+    n_shift = 0
+    for sel, st, env, iv, issues, kind in res:
+        if kind != "return" or sel not in ("shl", "shr", "sar"):
+            continue
+        for node, amt in shift_amounts(st.value, env):
+            n_shift += 1
+            if amt[0] <= 0 and amt[1] >= 255:
+                out.ok({"fold": sel, "shift": short(node, 50), "amounts_folded_by_shifting": [amt[0], amt[1] if amt[1] != wordint.INF else "inf"]})
+            else:
+                out.bad(f"fold:{sel}:shift-amount-range", f"constant folding of `{sel}`: `{short(node, 50)}` is only reached for shift amounts in [{amt[0]}, {amt[1]}]; "
+                        f"every amount in 0..255 is a genuine shift", where(f, st))
+    if n_shift < 3:
+        raise AnalysisError(f"only {n_shift} shift folds found in evaluate_expression")
+    # two's-complement reinterpretation idiom  `x - 2^256 if <test> else x`: its range must be exactly int256
+    n_sign = 0
+    for g in ctx.p.funcs_in(GO):
+        for e in own_nodes(g.node):
+            if isinstance(e, ast.IfExp) and isinstance(e.body, ast.BinOp) and isinstance(e.body.op, ast.Sub) and isinstance(e.body.left, ast.Name) \
+                    and isinstance(e.orelse, ast.Name) and e.orelse.id == e.body.left.id and wordint._const(e.body.right, consts) == 2 ** 256:
+                n_sign += 1
+                iv = wordint.interval(e, {e.orelse.id: (0, wordint.WMAX)}, consts, [])
+                if iv == (-2 ** 255, 2 ** 255 - 1):
+                    out.ok({"function": g.name, "signed_reinterpretation": short(e, 70), "range": "[-2^255, 2^255-1]"})
+                else:
+                    which = "2^255 (the most negative int256) is read as positive" if iv[1] >= 2 ** 255 else "a non-negative int256 is read as negative" if iv[0] < -2 ** 255 \
+                        else "the range is not the whole of int256"
+                    out.bad(f"signed-reinterpretation-range:{g.name}:{norm(e.test)}", f"{g.name}: `{short(e, 80)}` has the range [{iv[0]}, {iv[1]}], not "
+                            f"[-2^255, 2^255-1]: {which}", where(g, e))
+    if n_sign < 1:
+        if "sar" in branches:
+            out.bad("fold:sar:no-signed-reinterpretation", "evaluate_expression folds `sar` without reading the shifted word as a two's-complement number "
+                    "(no `x - 2^256 if x >= 2^255 else x`): the fold is a logical shift", where(f))
+        else:
+            raise AnalysisError("no two's-complement reinterpretation found in the folders (sar)")
     # (v) every operator dispatched by compute_binary has a branch
     cb = ctx.func(f"{GO}.compute_binary")
     lists = [n for n in own_nodes(cb.node) if isinstance(n, ast.Compare) and is_name(n.left, "funct") and isinstance(n.ops[0], ast.In)
